@@ -1,0 +1,71 @@
+//go:build verif
+
+// Contracts for the file-based pipeline of api.go: ParseFile and its two
+// goroutine bodies (see /verif/DESIGN.md section 7: C11, C12). Each goroutine
+// body is verified as sequential code; the channel operations are events
+// counted in ghost variables named after the channel variable. Comment-only file.
+
+package bcl
+
+//@ group C11,C12
+//@ ghost var closes int          // Close calls made on the input
+//@ ghost var reads int           // Read calls made on the input
+//@ ghost var rd_n int            // byte count of the most recent Read
+//@ ghost var rd_err error        // error of the most recent Read
+//@ ghost var ev_go int           // goroutines started
+//@ ghost var ev_send_rerr int
+//@ ghost var ev_sent_rerr error
+//@ ghost var ev_recv_rerr int
+//@ ghost var ev_val_rerr error
+//@ ghost var ev_send_perr int
+//@ ghost var ev_sent_perr error
+//@ ghost var ev_recv_perr int
+//@ ghost var ev_val_perr error
+//@ ghost var ev_send_inpc int
+//@ ghost var ev_close_inpc int
+//@ ghost var ev_close_done int
+//@ ghost var ev_recv_done int
+//@ ghost var parsed_err error    // error returned by the parser run of this call
+//
+// the input as an abstract object
+//@ extern (FileInput).Close(recv FileInput) error
+//@   modifies nothing
+//@   ghost closes = g.closes + 1
+//@ extern (FileInput).Read(recv FileInput, p []byte) (n int, err error)
+//@   requires reads_only_while_open: g.closes == 0
+//@   ensures 0 <= n && n <= len(p)
+//@   modifies p[0..len(p))
+//@   ghost reads = g.reads + 1; rd_n = n; rd_err = err
+//@ extern (FileInput).Name(recv FileInput) string
+//@   modifies nothing
+//
+// reader goroutine
+//@ func ParseFile$1
+//@   requires input_given: f != nil
+//@   requires fresh_protocol: g.closes == 0 && g.ev_send_rerr == 0 && g.ev_close_inpc == 0 && g.ev_recv_done == 0 && g.ev_send_inpc == 0 && g.reads == 0
+//@   ensures [C11] input_closed_exactly_once: g.closes == 1
+//@   ensures [C11] reports_exactly_once: g.ev_send_rerr == 1
+//@   ensures [C11] read_error_is_what_is_reported: g.ev_sent_rerr == ((g.rd_err != nil && g.rd_err != io.EOF && g.ev_recv_done == 0) ? g.rd_err : nil)
+//@   ensures [C11] chunk_channel_closed_once_unless_cancelled: g.ev_close_inpc + g.ev_recv_done == 1
+//@   ensures [C11] every_read_with_data_is_forwarded: g.ev_recv_done == 0 ==> g.ev_send_inpc == g.reads - 1 && ((g.rd_n == 0 && g.rd_err == io.EOF) || (g.rd_err != nil && g.rd_err != io.EOF))
+//@   ensures [C11] stops_reading_when_cancelled: g.ev_recv_done == 1 ==> g.ev_send_inpc == g.reads - 1
+//@   loop 1 invariant still_running: g.closes == 0 && g.ev_send_rerr == 0 && g.ev_close_inpc == 0 && g.ev_recv_done == 0 && g.ev_send_inpc == g.reads
+//
+// parser goroutine
+//@ func ParseFile$2
+//@   requires input_given: f != nil
+//@   requires no_nil_option: forall i int :: 0 <= i && i < len(opts) ==> opts[i] != nil
+//@   requires fresh_protocol: g.ev_send_perr == 0 && g.ev_close_done == 0
+//@   ensures [C11] reports_exactly_once: g.ev_send_perr == 1
+//@   ensures [C11] reader_cancelled_iff_parse_failed: g.ev_close_done == ((g.ev_sent_perr != nil) ? 1 : 0)
+//@   ensures [C11] reports_the_parser_verdict: g.ev_sent_perr == g.parsed_err
+//@   assert [C11] parses_the_chunk_channel_once: at parseWithOpts#1: true
+//
+//@ func ParseFile
+//@   requires input_given: f != nil
+//@   requires no_nil_option: forall i int :: 0 <= i && i < len(opts) ==> opts[i] != nil
+//@   requires fresh_protocol: g.closes == 0 && g.reads == 0 && g.ev_go == 0 && g.ev_send_rerr == 0 && g.ev_send_perr == 0 && g.ev_close_inpc == 0 && g.ev_close_done == 0 && g.ev_recv_done == 0 && g.ev_send_inpc == 0 && g.ev_recv_rerr == 0 && g.ev_recv_perr == 0
+//@   ensures [C11,C12] starts_reader_and_parser: g.ev_go == 2
+//@   ensures [C11,C12] waits_for_both_goroutines: g.ev_recv_rerr == 1 && g.ev_recv_perr == 1
+//@   ensures [C11] read_error_preferred: result1 == ((g.ev_val_rerr != nil) ? g.ev_val_rerr : g.ev_val_perr)
+//@   ensures [C11] input_left_to_the_reader: g.closes == 0 && g.reads == 0
